@@ -202,6 +202,8 @@ def make_cfg(rng, kind, log, npar, mask, multinom):
         fx = None
         if mask[i]:
             fx = rng.uniform(tlo + 0.05 * (thi - tlo), thi - 0.05 * (thi - tlo))
+            if not positive and (lo is None or lo <= 0) and (hi is None or hi >= 0) and rng.random() < 0.35:
+                fx = 0.0                                                        # a parameter fixed at exactly 0
             s = fx * rng.choice([0.5, 2.0, 1.25]) + (0.0 if positive else 0.3)   # ignored by a correct wrapper
         lb.append(lo)
         ub.append(hi)
@@ -266,7 +268,8 @@ def run_records(ctx):
 # single calls: _project_params_up / _project_params_down / perturb_params
 # --------------------------------------------------------------------------
 def rand_mask(rng, n, p=0.4):
-    return [round(rng.uniform(-3, 5), 3) if rng.random() < p else None for _ in range(n)]
+    # a fixed value may be exactly 0 (falsy in Python): a common choice, e.g. a migration rate switched off
+    return [rng.choice([round(rng.uniform(-3, 5), 3), round(rng.uniform(-3, 5), 3), 0.0, 0]) if rng.random() < p else None for _ in range(n)]
 
 
 def observe(fn, key):
